@@ -86,6 +86,9 @@ func c06Paths() []string {
 			"$[?(@.a == 'x' || !@.b)]", "$.c[?(@.a == 1)].b", "$..[?(@.a)]", "$..[?(@.a == 1)]", "$.list[?(@.v == 1)].id", "$.list[?(@.v == $.x)]", "$.list[?(@.v == '1')]", "$.list[?(@.v)]", "$.list[?(!@.v)].id",
 			"$.a.f1()", "$.*.f1()", "$.a.g1()", "$.*.g2()", "$[?(@.a.f2() == 2)]", "$[?(@.*.g1() > 1)]", "$.c[*].a.f2().f1()", "$..a.g1()", "$.b.c[?(@ > 1)]", "$.b.c[?(@ == 2 || @ == 3)]",
 			"$[*,0]", "$[1,*]", "$[*,*]", "$[*,0].a", "$[0,*,-1].b", "$[?(@.a > 100)].b", "$[-3:].a", "$[::-20].a", "$[?(@.b == $[3].b)].a", "$.list[?(@.v == $.x)].id", "$.list[?(@.v != $.x)].id", "$..[?(@.v == $.x)]", "$[?($.a == 3)]", "$[?($.d == 'y')]",
+			// functions that themselves call the library; literal on the left of an ordering comparison with a root path
+			"$.b.fnest()", "$.c[*].fnest()", "$[*].fnest()", "$.f.g.fnest()", "$.a.gnest()", "$.list[*].id.gnest()", "$[?(@.a.fnest())]", "$.c[?(@.b.fnest() == 3)]",
+			"$.list[?(1 < $.x)]", "$.list[?(2 > $.x)].id", "$.list[?(1 <= $.x)]", "$[?(3 >= $.a)]", "$.list[?(1 < $.x && @.v)]",
 			// logical operators one side of which is decided for the whole container at once
 			"$[?(@.a && $.d)]", "$[?(@.a == 1 && $.a == 3)]", "$[?($.x == 1 && @.v)]", "$.list[?(@.v == 1 && $.x == 1)]", "$.list[?(@.v == 1 && $.x == 2)]", "$.list[?(@.v || $.y == 'a')]", "$.list[?($.y == 'b' || @.v == 2)]",
 			"$[?(@.b && 1 == 2)]", "$[?(1 == 1 && @.a)]", "$[?(@.a || 1 == 2)]", "$[?(@.a == 1 && $.zz)]", "$[?(!$.zz && @.b)]", "$.c[?(@.a && $.d == 'x')].b", "$.c[?(@.b && $.d == 'y')].a",
@@ -120,7 +123,7 @@ func drawC06(rt *rapid.T) *Case {
 }
 
 type c06Op struct {
-	kind int    // 0: Parse+call, 1: shared function call, 2: Retrieve
+	kind int    // 0: Parse+call, 1: shared function call, 2: Retrieve, 3: a retrieval in which a user function panics
 	text string // the path as written for this operation (kinds 0 and 2)
 	path int
 	cfg  int
@@ -210,6 +213,8 @@ func checkC06(c *Case, st *Stats) string {
 			if churn {
 				op.kind = 1
 				op.doc = next(7)
+			} else if next(40) == 0 {
+				op.kind = 3
 			}
 			if len(focus) > 0 {
 				op.path = focus[next(len(focus))]
@@ -259,6 +264,21 @@ func checkC06(c *Case, st *Stats) string {
 	}
 	run := func(op c06Op) ([]interface{}, error) {
 		switch op.kind {
+		case 3:
+			// a user function panics in the middle of this goroutine's evaluation; the goroutine recovers
+			// and carries on (its later calls, and everybody else's, must be unaffected)
+			rec := &Recorder{PanicNext: 1 + op.fn%3}
+			func() {
+				defer func() {
+					if r := recover(); r != nil {
+						if _, ours := r.(UserPanic); !ours {
+							panic(r)
+						}
+					}
+				}()
+				_, _ = jsonpath.Retrieve([]string{"$[*].f1()", "$..a.f1()", "$[?(@.a.f1())]", "$.*.f4().f1()", "$..*.g1()"}[op.cfg%5], docs[op.doc], BuildConfig(rec, true, false))
+			}()
+			return nil, nil
 		case 1:
 			return shared[op.fn].f(docs[op.doc])
 		case 0:
@@ -294,6 +314,9 @@ func checkC06(c *Case, st *Stats) string {
 	expect := map[[3]int]string{}
 	for _, prog := range programs {
 		for _, op := range prog {
+			if op.kind == 3 {
+				continue
+			}
 			k := key(op)
 			if _, ok := expect[k]; ok {
 				continue
@@ -333,6 +356,9 @@ func checkC06(c *Case, st *Stats) string {
 			var held []heldResult
 			for i, op := range programs[g] {
 				got, err := run(op)
+				if op.kind == 3 {
+					continue
+				}
 				sum := summarize(got, err)
 				full := c06Outcome(got, err)
 				k := key(op)
@@ -389,6 +415,9 @@ func checkC06(c *Case, st *Stats) string {
 	alone := map[[3]int]string{}
 	for g, prog := range programs {
 		for _, op := range prog {
+			if op.kind == 3 {
+				continue
+			}
 			k := key(op)
 			if _, ok := alone[k]; !ok {
 				got, err := run(op)
